@@ -90,11 +90,11 @@ Proof.
   apply filter_In in Hi. exact (proj1 (Forall_forall _ _) H _ (proj1 Hi)).
 Qed.
 
-Lemma c08_exact_when (b : bool) : b = true -> forall max c pkts, sc_skip c = false -> Forall wf_pkt pkts ->
-  write_all max (so_batches (scan b c (serialize pkts))) = serialize (filter (pmatch c) pkts).
+Lemma c08_exact_when (b k : bool) : b = true -> forall max c pkts, sc_skip c = false -> Forall wf_pkt pkts ->
+  write_all max (so_batches (scan b k c (serialize pkts))) = serialize (filter (pmatch c) pkts).
 Proof.
   intros Hb max c pkts Hs Hwf. rewrite write_all_spec.
-  destruct (c03_scan_exact_when b Hb c pkts Hwf) as (_ & Hc & _). rewrite Hc.
+  destruct (c03_scan_exact_when b k Hb c pkts Hwf) as (_ & Hc & _). rewrite Hc.
   unfold serialize. rewrite <- (selected_snd c pkts 0), !map_map. f_equal.
   apply map_ext_in. intros op Hin. apply cdp_bytes_mk; [exact Hs|].
   exact (proj1 (Forall_forall _ _) (selected_wf c pkts 0 Hwf) op Hin).
